@@ -349,6 +349,7 @@ impl<R: Read + Seek> ReadDesc<&mut R> for ESDescriptor {
         let end = start + size as u64;
         while current < end {
             let (desc_tag, desc_size) = read_desc(reader)?;
+            let desc_end = reader.stream_position()? + desc_size as u64;
             match desc_tag {
                 0x04 => {
                     dec_config = Some(DecoderConfigDescriptor::read_desc(reader, desc_size)?);
@@ -356,10 +357,10 @@ impl<R: Read + Seek> ReadDesc<&mut R> for ESDescriptor {
                 0x06 => {
                     sl_config = Some(SLConfigDescriptor::read_desc(reader, desc_size)?);
                 }
-                _ => {
-                    skip_bytes(reader, desc_size as u64)?;
-                }
+                _ => {}
             }
+            // a descriptor occupies exactly its declared length, whatever its reader consumed
+            skip_bytes_to(reader, desc_end)?;
             current = reader.stream_position()?;
         }
 
@@ -442,14 +443,12 @@ impl<R: Read + Seek> ReadDesc<&mut R> for DecoderConfigDescriptor {
         let end = start + size as u64;
         while current < end {
             let (desc_tag, desc_size) = read_desc(reader)?;
-            match desc_tag {
-                0x05 => {
-                    dec_specific = Some(DecoderSpecificDescriptor::read_desc(reader, desc_size)?);
-                }
-                _ => {
-                    skip_bytes(reader, desc_size as u64)?;
-                }
+            let desc_end = reader.stream_position()? + desc_size as u64;
+            if desc_tag == 0x05 {
+                dec_specific = Some(DecoderSpecificDescriptor::read_desc(reader, desc_size)?);
             }
+            // a descriptor occupies exactly its declared length, whatever its reader consumed
+            skip_bytes_to(reader, desc_end)?;
             current = reader.stream_position()?;
         }
 
